@@ -74,6 +74,18 @@ func registerLibraryModels() {
 		e.mapDelete(e.syncMapOf(args[0]), args[1])
 		return nil
 	}
+	I["maps.clone"] = func(e *Engine, caller *frame, fn *ssa.Function, args []Value) Value {
+		itf := args[0].(Iface)
+		m, ok := itf.V.(*Map)
+		if !ok || m == nil {
+			return itf
+		}
+		c := &Map{kt: m.kt}
+		for _, en := range m.entries {
+			c.entries = append(c.entries, mapEntry{copyVal(en.k), copyVal(en.v)})
+		}
+		return Iface{T: itf.T, V: c}
+	}
 	I["(reflect.Kind).String"] = func(e *Engine, caller *frame, fn *ssa.Function, args []Value) Value {
 		k := args[0].(*Term)
 		if !k.IsConst() || int(k.BV) >= len(kindNames) {
